@@ -634,11 +634,17 @@ func (x *Exec) evalCall(env *Env, e *Expr) (Val, error) {
 		if args[0].Sort == SStr {
 			return UF("str_len", SInt, args[0]), nil
 		}
-		if args[0].Sort == SBytes {
-			return UF("bytes_len", SInt, args[0]), nil
-		}
-		if args[0].Sort == SCoins {
-			return UF("coins_len", SInt, args[0]), nil
+		if args[0].Sort == SBytes || args[0].Sort == SCoins {
+			name := "bytes_len"
+			if args[0].Sort == SCoins {
+				name = "coins_len"
+			}
+			l := UF(name, SInt, args[0])
+			// a length is never negative: the fact the executed len() adds, added for closed spec terms too
+			if env.st != nil && !mentionsBound(args[0]) {
+				env.st.assume(lenRange(l))
+			}
+			return l, nil
 		}
 		return nil, fmt.Errorf("len of %s", args[0].Sort)
 	case "has", "get", "set", "del":
@@ -771,7 +777,7 @@ func (x *Exec) evalCall(env *Env, e *Expr) (Val, error) {
 		if err := need(1); err != nil {
 			return nil, err
 		}
-		return Or(Eq(args[0], BytesNil), UF("bytes_empty", SBool, args[0])), nil
+		return Or(Eq(args[0], BytesNil), bytesEmpty(args[0])), nil
 	case "creditcoins", "debitcoins": // creditcoins(bal, addr, coins)
 		if err := need(3); err != nil {
 			return nil, err
@@ -1011,7 +1017,50 @@ func (x *Exec) contractEnv(st *State, fn *ssa.Function, c *Contract, args []Val)
 			}
 		}
 	}
+	x.aliasParams(env, fn, c)
 	return env
+}
+
+// aliasParams: a contract written with a parameter list (func Name(a, b)) names the parameters by position; where
+// the code now calls a parameter differently, the contract's name is bound to the same value.
+func (x *Exec) aliasParams(env *Env, fn *ssa.Function, c *Contract) {
+	if c == nil || !c.HasParams {
+		return
+	}
+	ps := fn.Params
+	if fn.Signature.Recv() != nil && len(ps) > 0 {
+		ps = ps[1:]
+	}
+	if len(ps) != len(c.Params) {
+		return // the signature changed: names resolve as written
+	}
+	for i, p := range ps {
+		want := c.Params[i]
+		if want == p.Name() || want == "_" {
+			continue
+		}
+		if v, ok := env.vars[p.Name()]; ok {
+			env.vars[want] = v
+		}
+	}
+}
+
+// paramAlias: the contract's name of fn's i-th SSA parameter (receiver included in the count), "" when it has none.
+func (c *Contract) paramAlias(fn *ssa.Function, i int) string {
+	if c == nil || !c.HasParams {
+		return ""
+	}
+	if fn.Signature.Recv() != nil {
+		i--
+	}
+	n := len(fn.Params)
+	if fn.Signature.Recv() != nil {
+		n--
+	}
+	if i < 0 || i >= len(c.Params) || n != len(c.Params) {
+		return ""
+	}
+	return c.Params[i]
 }
 
 func (x *Exec) bindResults(env *Env, fn *ssa.Function, c *Contract, rets []Val) {
@@ -1110,4 +1159,26 @@ func (x *Exec) specRepoCall(env *Env, name string, e *Expr) (Val, bool, error) {
 		}
 	}
 	return res, true, nil
+}
+
+// mentionsBound: the term mentions a quantifier-bound symbol (NewBound names them bv!...).
+func mentionsBound(t *Term) bool {
+	seen := map[*Term]bool{}
+	var rec func(t *Term) bool
+	rec = func(t *Term) bool {
+		if t == nil || seen[t] {
+			return false
+		}
+		seen[t] = true
+		if t.kind == tSym && strings.HasPrefix(t.Name, "bv!") {
+			return true
+		}
+		for _, a := range t.Args {
+			if rec(a) {
+				return true
+			}
+		}
+		return false
+	}
+	return rec(t)
 }
